@@ -4,8 +4,9 @@
  "file": "token.c", "function": "tokencheck", "also_functions": ["tokendesc", "error"],
  "properties": {"C11": "contract", "C19": "all"},
  "mode": "harness", "noreturn_macros": false, "replay": false,
- "kind": "bounded", "unwind": 110, "unwind_failure": "violation",
- "bound": "token spellings of 0..8 symbolic characters or of exactly 100 characters (longer than the 64-byte description buffers); file name \"f.c\"; line and column < 1000; message text fixed",
+ "variants": {"semi-ident": ["-DV_WANT=TSEMICOLON", "-DV_KIND=TIDENT", "-DV_LONG=0"], "ident-other": ["-DV_WANT=TIDENT", "-DV_KIND=TOTHER", "-DV_LONG=0"], "newline-longstring": ["-DV_WANT=TNEWLINE", "-DV_KIND=TSTRINGLIT", "-DV_LONG=1"], "rparen-eof": ["-DV_WANT=TRPAREN", "-DV_KIND=TEOF", "-DV_LONG=0"], "match": ["-DV_WANT=TIDENT", "-DV_KIND=TIDENT", "-DV_LONG=0"]},
+ "kind": "bounded", "unwind": 76, "unwindset": ["v_stream_put.0:201", "starts_with.0:41"], "unwind_failure": "violation",
+ "bound": "five (expected kind, current kind) pairs fixed per variant; token spellings of 3 symbolic characters or of exactly 70 characters (4 symbolic) (longer than the 64-byte description buffers); file name \"f.c\"; line 100..999, column 10..99 (fixed digit counts keep the text positions constant); message text fixed",
  "stubs": ["base.c"],
  "cbmc_flags": ["--drop-unused-functions"],
  "timeout": 300,
@@ -39,7 +40,7 @@ at_exit_check(int status)
 	if (g_want == TIDENT)
 		__CPROVER_assert(starts_with(g_err, g_prefixn + 9, "identifier "), "the diagnostic names the expected token class");
 #ifdef VERIF_CANARY
-	__CPROVER_assert(!(g_want == TSEMICOLON && g_tok.kind == TIDENT), "CANARY");
+	__CPROVER_assert(!(g_errn != 0 && g_tok.loc.line == 123), "CANARY");
 #endif
 }
 
@@ -55,10 +56,10 @@ harness(void)
 	IN(size_t, in_col);
 	char *r;
 
-	__CPROVER_assume(in_kind >= TEOF && in_kind <= THASHHASH);
-	__CPROVER_assume(in_want == TIDENT || in_want == TNUMBER || in_want == TSTRINGLIT || in_want == TNEWLINE ||
-	                 (in_want >= TALIGNAS && in_want <= THASHHASH));
-	__CPROVER_assume(in_len <= 8 && in_line < 1000 && in_col < 1000);
+	__CPROVER_assume(in_kind == V_KIND && in_want == V_WANT && in_long == V_LONG);
+	in_kind = V_KIND; in_want = V_WANT; in_long = V_LONG;       /* constants for the symbolic execution */
+	__CPROVER_assume(in_len == 3 && in_line >= 100 && in_line < 1000 && in_col >= 10 && in_col < 100);
+	in_len = 3;
 	g_tok.kind = in_kind;
 	g_tok.lit = spelled(in_kind) ? mk_spelling(in_chars, in_long ? LITCAP : in_len) : 0;
 	__CPROVER_assume(in_kind != TOTHER || g_tok.lit[0] != 0);      /* a stray character token spells that character */
@@ -74,4 +75,7 @@ harness(void)
 	__CPROVER_assert(g_tok.kind == in_want, "tokencheck() returns only when the token has the expected kind");
 	__CPROVER_assert(r == g_tok.lit, "... and returns its spelling");
 	__CPROVER_assert(g_errn == 0 && g_outn == 0 && g_snprintf_calls == 0, "... silently");
+#if defined(VERIF_CANARY)
+	__CPROVER_assert(in_col != 77, "CANARY");
+#endif
 }
